@@ -26,6 +26,8 @@ pub enum Ev {
     /// one packet cut in two reads at `cut`; the second becomes available only after quiescence
     DeliverSplit(SPacket, usize),
     Eof,
+    /// the first `n` bytes of a packet, then end-of-stream
+    PartialThenEof(SPacket, usize),
     ReadErr,
     WriteErr,
     TakeStream(usize),
@@ -52,6 +54,7 @@ impl Ev {
             Ev::DeliverBytewise(p) => format!("DeliverBytewise({})", p.brief()),
             Ev::DeliverSplit(p, c) => format!("DeliverSplit({}, cut={})", p.brief(), c),
             Ev::Eof => "Eof".into(),
+            Ev::PartialThenEof(p, n) => format!("PartialThenEof({} bytes of {})", n, p.brief()),
             Ev::ReadErr => "ReadError".into(),
             Ev::WriteErr => "WriteError".into(),
             Ev::TakeStream(i) => format!("TakeStream(op{})", i),
@@ -129,6 +132,7 @@ impl Ev {
             ),
             Ev::DeliverBytewise(p) => format!("DeliverBytewise({})", pk(p)),
             Ev::DeliverSplit(p, _) => format!("DeliverSplit({})", pk(p)),
+            Ev::PartialThenEof(..) => "PartialThenEof".into(),
             Ev::TakeStream(_) => "TakeStream".into(),
             Ev::DropRsp(_) => "DropSubscribeRsp".into(),
             Ev::DropStream(_) => "DropStream".into(),
@@ -415,6 +419,13 @@ impl Sys {
                 self.w.deliver(bytes[cut..].to_vec());
             }
             Ev::Eof => {
+                self.m.eof = true;
+                self.w.eof();
+            }
+            Ev::PartialThenEof(p, n) => {
+                let bytes = p.encode();
+                let n = n.min(bytes.len() - 1).max(1);
+                self.w.deliver(bytes[..n].to_vec());
                 self.m.eof = true;
                 self.w.eof();
             }
